@@ -61,7 +61,12 @@ func (r Targets) Less(i, j int) bool {
 	if r[i].ScopeId != r[j].ScopeId {
 		return r[i].ScopeId < r[j].ScopeId
 	}
-	return r[i].Name < r[j].Name
+	if r[i].Name != r[j].Name {
+		return r[i].Name < r[j].Name
+	}
+	// e.g. the body target and the target supporting unknown nested
+	// references of a block whose body has a dynamic type
+	return r[i].Description.Value < r[j].Description.Value
 }
 
 func compareRangePtrs(a, b *hcl.Range) int {
